@@ -579,6 +579,8 @@ class Fn:
             return [f"pure {self.tuple_term(tail['vars'])}"]
         if k == "flow":
             return [f"pure (Sum.inr {self.tuple_term(tail['vars'])})"]
+        if k == "tryret":
+            return [f"pure (Sum.inr {self.tuple_term(tail['vars'])})"]
         raise AssertionError(k)
 
     def tuple_term(self, names):
@@ -688,7 +690,7 @@ class Fn:
         f-strings of those, `.hex()` and `.name` only; an argument that is a conversion the module spec knows
         (it can raise) is evaluated for that effect, in place, before the call is dropped"""
         for a in list(call.args) + [k.value for k in call.keywords]:
-            if isinstance(a, ast.Call) and self.tr.spec.ext_expr is not None and env is not None:
+            if isinstance(a, (ast.Call, ast.Subscript)) and self.tr.spec.ext_expr is not None and env is not None:
                 r = self.tr.spec.ext_expr(self, a, env, L)
                 if r is not None:
                     continue
@@ -735,6 +737,8 @@ class Fn:
                     term = self.coerce(term, ty, self.ret)
                 if tail["kind"] == "loop":
                     L.append(f"pure (Ctl.ret {paren(term)})")
+                elif tail["kind"] == "tryret":
+                    L.append(f"pure (Sum.inl {paren(term)})")
                 else:
                     L.append(self.pure(term))
                 return L, False
@@ -1320,19 +1324,31 @@ class Fn:
                 raise Unsupported(f"{self.fs.qual}: except clause {ast.unparse(h.type)[:40]}")
         if len(s.handlers) != 1:
             raise Unsupported(f"{self.fs.qual}: several except clauses")
-        # the try body yields the names it binds (those used later); control transfers inside it are not supported
-        if self.has_jump(s.body):
+        # the try body yields the names it binds (those used later); of the control transfers only `return` is supported, at function level
+        ret_in_try = self.has_return(s.body)
+        if self.has_jump(s.body) and not (ret_in_try and tail["kind"] == "fn" and not self.has_jump([x for x in s.body if False])):
             raise Unsupported(f"{self.fs.qual}: return/break/continue inside a try body")
+        if ret_in_try and any(isinstance(n, (ast.Break, ast.Continue)) for b in s.body for n in ast.walk(b)):
+            raise Unsupported(f"{self.fs.qual}: break/continue inside a try body")
         later = self.loaded(s.orelse) | self.loaded(rest) | self.loaded(rest_after)
         vars_ = [v for v in bound if v in later or v in env]
         eb = dict(env)
-        lb, _ = self.block(s.body, eb, {"kind": "join", "vars": vars_}, [])
+        if ret_in_try:
+            lb, _ = self.block(s.body, eb, {"kind": "tryret", "vars": vars_}, [])
+        else:
+            lb, _ = self.block(s.body, eb, {"kind": "join", "vars": vars_}, [])
         r = self.tr.fresh("r")
         L.append(f"let {r} ← PyM.attempt (do")
         L.extend("    " + x for x in lb)
         L.append("  )")
         L.append(f"match {r} with")
-        L.append(f"| .ok {self.tuple_pat(vars_)} =>")
+        if ret_in_try:
+            rv = self.tr.fresh("rv")
+            L.append(f"| .ok (Sum.inl {rv}) =>")
+            L.append(f"  pure {rv}")
+            L.append(f"| .ok (Sum.inr {self.tuple_pat(vars_)}) =>")
+        else:
+            L.append(f"| .ok {self.tuple_pat(vars_)} =>")
         eo = dict(env)
         for v in vars_:
             eo[v] = eb[v]
@@ -1599,7 +1615,7 @@ class Fn:
             b, bt = self.coerce(b, bt, NAT), NAT
         if {at, bt} == {NAT, INT}:
             a, b, at, bt = self.coerce(a, at, INT), self.coerce(b, bt, INT), INT, INT
-        if at == bt and at in (NAT, INT, BOOL, BYTES) or (at == bt and isinstance(at, tuple) and at[0] in ("enum", "cls", "lean", "struct")):
+        if at == bt and at in (NAT, INT, BOOL, BYTES, STR) or (at == bt and isinstance(at, tuple) and at[0] in ("enum", "cls", "lean", "struct")):
             if op in (ast.Eq, ast.NotEq) or at in (NAT, INT):
                 return f"(decide ({a} {'=' if op is ast.Eq else '≠' if op is ast.NotEq else sym} {b}))" if op in (ast.Eq, ast.NotEq) else f"(decide ({a} {sym} {b}))", BOOL
         raise Unsupported(f"{self.fs.qual}: comparison {ast.unparse(node)[:60]} on {at}, {bt}")
@@ -2786,8 +2802,137 @@ def hdr_v8_spec():
     return _hdr_spec("bellows.ezsp.v8", "EZSPv8", "BV.Src.HdrV8")
 
 
+# --------------------------------------------------------------------------- bellows/ezsp/protocol.py: ProtocolHandler.__call__
+
+def protocol_spec() -> ModSpec:
+    VALS = ("lean", "Vals")
+    SCHEMA = ("lean", "Schema")
+    FUT = ("ref", "PFut")
+
+    def frame_rx(fn, node, env, L):
+        a, at = fn.ex(node.args[0], env, L)
+        if at != BYTES:
+            raise Unsupported("_ezsp_frame_rx of " + str(at))
+        tmp = fn.tr.fresh("h")
+        L.append(f"let {tmp} ← frameRx {paren(a)}")
+        return tmp, tup(NAT, NAT, BYTES)
+
+    def awaiting_pop(fn, node, env, L):
+        if len(node.args) != 1:
+            raise Unsupported("_awaiting.pop arity")
+        k, kt = fn.ex(node.args[0], env, L)
+        tmp = fn.tr.fresh("p")
+        L.append(f"let {tmp} ← awaitingPop {paren(fn.coerce(k, kt, NAT))}")
+        return tmp, tup(NAT, ("lean", "Unit"), FUT)
+
+    def handle_callback(fn, node, env, L):
+        if len(node.args) != 2:
+            raise Unsupported("_handle_callback arity")
+        a, at = fn.ex(node.args[0], env, L)
+        b, bt = fn.ex(node.args[1], env, L)
+        if at != STR or bt != VALS:
+            raise Unsupported(f"_handle_callback({at}, {bt})")
+        L.append(f"pemit (.callback {paren(a)} {paren(b)})")
+        return "()", UNIT
+
+    st = StateSpec(
+        pyclass="ProtocolHandler", lean="Proto",
+        fields={"_awaiting": ("awaiting", ("dict", NAT, tup(NAT, FUT)))},
+        calls={
+            "self._ezsp_frame_rx": frame_rx,
+            "self._awaiting.pop": awaiting_pop,
+            "self._handle_callback": handle_callback,
+        },
+    )
+
+    def ext(fn, node, env, L):
+        src = ast.unparse(node)
+        if isinstance(node, ast.Subscript):
+            if ast.unparse(node.value) == "self.COMMANDS_BY_ID":
+                k, kt = fn.ex(node.slice, env, L)
+                if kt != NAT:
+                    raise Unsupported("COMMANDS_BY_ID[...] with a key of type " + str(kt))
+                tmp = fn.tr.fresh("c")
+                L.append(f"let {tmp} ← cmdById {paren(k)}")
+                return tmp, tup(STR, ("lean", "Unit"), SCHEMA)
+            if src == "self.COMMANDS_BY_ID.get(expected_id, [expected_id])[0]":
+                return '""', STR      # (logging argument: a lookup with a default, then the first element - cannot raise)
+            return None
+        if isinstance(node, ast.Call):
+            f = ast.unparse(node.func)
+            if f == "binascii.hexlify" and len(node.args) == 1 and isinstance(node.args[0], ast.Name) and env.get(node.args[0].id) == BYTES:
+                return '""', STR
+            if f == "isinstance" and len(node.args) == 2 and ast.unparse(node.args[1]) == "dict":
+                a, at = fn.ex(node.args[0], env, L)
+                if at != SCHEMA:
+                    raise Unsupported("isinstance(.., dict) of " + str(at))
+                return f"(schemaIsDict {paren(a)})", BOOL
+            if f == "t.deserialize_dict" and len(node.args) == 2:
+                a, at = fn.ex(node.args[0], env, L)
+                b, bt = fn.ex(node.args[1], env, L)
+                if at != BYTES or bt != SCHEMA:
+                    raise Unsupported("deserialize_dict arguments")
+                tmp = fn.tr.fresh("d")
+                L.append(f"let {tmp} ← {fn.lift(f'deSchema {paren(a)} {paren(b)}')}")
+                return tmp, tup(VALS, BYTES)
+            if isinstance(node.func, ast.Attribute) and node.func.attr == "deserialize" and len(node.args) == 1 \
+                    and isinstance(node.func.value, ast.Name) and env.get(node.func.value.id) == SCHEMA:
+                a, at = fn.ex(node.args[0], env, L)
+                if at != BYTES:
+                    raise Unsupported("deserialize of " + str(at))
+                tmp = fn.tr.fresh("d")
+                L.append(f"let {tmp} ← {fn.lift(f'deSchema {paren(a)} {ident(node.func.value.id)}')}")
+                return tmp, tup(VALS, BYTES)
+            if src == "list(result.values())" and env.get("result") == VALS:
+                return "result", VALS     # the dict built by deserialize_dict keeps the schema's order; its values are the decoded list
+        return None
+
+    def invalid_command_error(fn, node, env, L):
+        # the message is an f-string; what it evaluates can raise: `result[0]` (IndexError on an empty answer); `.name` is taken of
+        # an enum value (the invalid-command answer's only field is an EzspStatus)
+        for a in node.args:
+            if not isinstance(a, ast.JoinedStr):
+                raise Unsupported("InvalidCommandError argument")
+            for v in a.values:
+                if isinstance(v, ast.FormattedValue):
+                    e = v.value
+                    if isinstance(e, ast.Name):
+                        continue
+                    if ast.unparse(e) == "result[0].name" and env.get("result") == VALS:
+                        tmp = fn.tr.fresh("x")
+                        L.append(f"let {tmp} ← {fn.lift('valsHead result')}")
+                        continue
+                    raise Unsupported("InvalidCommandError message part " + ast.unparse(e)[:40])
+        return "PFut.invalidCommand"
+
+    def fut_set_exception(fn, b, bt, args, L):
+        if len(args) != 1 or args[0][1] != EXC:
+            raise Unsupported("set_exception of a non-exception")
+        L.append(f"pfutSet {paren(b)} {args[0][0]}")
+        return "()", UNIT
+
+    def fut_set_result(fn, b, bt, args, L):
+        if len(args) != 1 or args[0][1] != VALS:
+            raise Unsupported("set_result of " + str(args[0][1] if args else None))
+        L.append(f"pfutSet {paren(b)} (.result {paren(args[0][0])})")
+        return "()", UNIT
+
+    return ModSpec(
+        module="bellows.ezsp.protocol",
+        ns="BV.Src.Proto",
+        imports=["BV.Py.ProtoEnv"],
+        opens=["BV.Py"],
+        unions={},
+        fns=[FnSpec("ProtocolHandler.__call__", params={"data": BYTES}, ret=UNIT, lean_name="handler_call")],
+        state=st,
+        ext_expr=ext,
+        exc_ctor={"InvalidCommandError": invalid_command_error},
+        value_methods={("ref:PFut", "set_exception"): fut_set_exception, ("ref:PFut", "set_result"): fut_set_result},
+    )
+
+
 MODULES = {"Ash": ash_spec, "Uart": uart_spec, "Mcast": multicast_spec, "Wd": watchdog_spec,
-           "HdrV4": hdr_v4_spec, "HdrV5": hdr_v5_spec, "HdrV8": hdr_v8_spec}
+           "HdrV4": hdr_v4_spec, "HdrV5": hdr_v5_spec, "HdrV8": hdr_v8_spec, "Proto": protocol_spec}
 
 
 def translate_module(spec: ModSpec):
